@@ -34,7 +34,8 @@ CONSTANTS
   MaxSetup,  \* length of the sequential setup history
   FixedSetup,\* if non-empty: the setup history is exactly this sequence of <<"A", r, 1>> / <<"J", r, s>> ops
   Menu,      \* set of operation records offered to the concurrent phase
-  NProcs     \* number of concurrently issued operations
+  NProcs,    \* number of concurrently issued operations
+  Distinct   \* TRUE: the goroutines run pairwise different operations of the menu
 
 VARIABLES U, ents, heads, nidx, clk, ident,
           phase,   \* "setup" | "conc"
@@ -172,7 +173,8 @@ Step(i) ==
   /\ hist' = [hist EXCEPT !.sched = Append(@, i)]
   /\ UNCHANGED <<phase, procs>>
 
-OpSeqs == [1..NProcs -> Menu]
+OpSeqs == IF Distinct THEN {f \in [1..NProcs -> Menu] : \A i, j \in 1..NProcs : i # j => f[i] # f[j]}
+          ELSE [1..NProcs -> Menu]
 
 Next ==
   \/ \E r \in L : SetupAppend(r)
